@@ -31,9 +31,10 @@ GEN = ['Args', 'LibFns']
 THEOREMS = [
     'C15.sig_table', 'C15.fail_table', 'C15.raw_table',
     'C15.bodies_shape', 'C15.lib_frame', 'C15.lib_frame_kind', 'C15.lib_length', 'C15.lib_fresh',
-    'C15.lib_fail_unchanged', 'C15.lib_invalid_fails', 'C15.validate_num', 'C15.lib_spec',
+    'C15.lib_fail_unchanged', 'C15.lib_invalid_fails', 'C15.validate_num', 'C15.lib_spec_partial',
     'C15.history_refines', 'C15.history_env', 'C15.history_frame', 'C15.alias_same',
     'C15.dictGet_dictSet', 'C15.dictGet_dictDel', 'C15.dictSet_keys',
+    'C15.findFrom_spec', 'C15.lastMatch_spec', 'C15.split_join', 'C15.replace_split_join',
     'C15.regexEscape_literal', 'C15.regexEscape_call', 'C15.urlEncode_reversible', 'C15.urlEncode_call', 'C15.quoteByte_ascii',
 ]
 ASSUMPTIONS = [
@@ -1191,8 +1192,44 @@ def text_failures(s, got, rng):
     return bad
 
 
+def index_cases():
+    """every index-taking function x container length 0..3 x every index -2..len+2 (integral and half-way) - and every pair
+    of them for the two slices; the container has an alias and a copy so that frame and freshness are exercised"""
+    for length in range(4):
+        elems = [{'n': [10 + i, 1]} for i in range(length)]
+        text = 'abca'[:length]
+        idxs = [{'n': [i, 1]} for i in range(-2, length + 3)] + [{'n': [2 * i + 1, 2]} for i in range(-1, length + 1)]
+        pool = {'heap': [{'arr': elems}, {'arr': list(elems)}], 'env': [{'a': 0}, {'a': 0}, {'a': 1}, {'s': text}]}
+        for ix in idxs:
+            for fn, args in (('arrayGet', [{'var': 0}, ix]), ('arraySet', [{'var': 0}, ix, {'s': 'z'}]), ('arrayDelete', [{'var': 0}, ix]),
+                             ('arrayIndexOf', [{'var': 0}, {'n': [10 + max(length - 1, 0), 1]}, ix]),
+                             ('arrayLastIndexOf', [{'var': 0}, {'n': [10, 1]}, ix]), ('arrayNewSize', [ix, {'var': 0}]),
+                             ('arraySlice', [{'var': 0}, ix]), ('stringCharCodeAt', [{'var': 3}, ix]),
+                             ('stringIndexOf', [{'var': 3}, {'s': 'a'}, ix]), ('stringIndexOf', [{'var': 3}, {'s': ''}, ix]),
+                             ('stringLastIndexOf', [{'var': 3}, {'s': 'a'}, ix]), ('stringLastIndexOf', [{'var': 3}, {'s': ''}, ix]),
+                             ('stringLastIndexOf', [{'var': 3}, {'s': 'bc'}, ix]),
+                             ('stringRepeat', [{'var': 3}, ix]), ('stringSlice', [{'var': 3}, ix])):
+                yield pool, fn, args
+            for jx in idxs + [None]:
+                yield pool, 'arraySlice', [{'var': 0}, ix, jx]
+                yield pool, 'stringSlice', [{'var': 3}, ix, jx]
+
+
+def stream_index(ctx):
+    st = ctx.stream('index', 'every index-taking function x length 0..3 x every index -2..len+2 written as a float literal (integral and '
+                             'x.5), every (start, end) pair for the slices, on an array with an alias and a copy; non-trivial = all')
+    specs = []
+    for pool, fn, args in index_cases():
+        spec = copy.deepcopy(pool)
+        spec['calls'] = [{'fn': fn, 'args': args}, {'fn': 'arrayLength', 'args': [{'var': 1}]}, {'fn': 'arrayLength', 'args': [{'var': 2}]}]
+        specs.append(spec)
+    run_batch(ctx, 'index', st, specs, lambda spec, info: (True, ['fn:' + spec['calls'][0]['fn'], 'fails' if info['fails'] else 'succeeds']))
+    st.exhaustive = True
+
+
 def streams(ctx):
     stream_args(ctx)
+    stream_index(ctx)
     text_oracles(ctx)
     stream_lib(ctx)
 
@@ -1251,7 +1288,7 @@ LEVEL_TEXT = ('Theorems over a heap model (arrays/objects as shared cells) for A
               'first argument of the nine mutators can change, everything else keeps contents), freshness (copies/slices/new containers '
               'are new cells), failing calls return the documented failure value and leave the heap unchanged, the Python-shaped bodies '
               '(float indices, int() truncation, negative wrap-around, clamping slices, range loops, find/rfind bounds) equal reference '
-              'operations on natural indices (lib_spec), lifted to histories by induction; re.escape output is a literal-atom pattern for '
+              'operations on natural indices (lib_spec_partial), lifted to histories by induction; re.escape output is a literal-atom pattern for '
               'exactly its argument; percent-decoding urllib.parse.quote output gives back the UTF-8 bytes. Argument models, failure '
               'values, URL safe sets, re.escape specials are regenerated from the working tree on every run and must equal the '
               'documented tables (decide). The model is tied to library.py by histories executed through scripts and checked against '
